@@ -5,7 +5,10 @@ LEAN_MODULES = ["PomerolModel.Properties.C04"]
 GENERATED = ["presets", "coreflags"]
 THEOREMS = ["Pomerol.Properties.C04." + t for t in (
     "hamiltonian_is_sum_of_terms", "term_product_sound", "product_restart_was_wrong", "matrix_from_action",
-    "presets_store_valid_terms", "hopping_adds_conjugate", "index_hamiltonian_total")]
+    "presets_store_valid_terms", "hopping_adds_conjugate", "index_hamiltonian_total",
+    "preset_changes_hamiltonian", "presets_add_documented_operators", "magnetization_adds_twice_the_documented_field",
+    "kanamori_adds_documented_operator", "presets_are_hermitian", "kanamori_su2_invariant", "kanamori_su2_invariant_general",
+    "kanamori_commutes_with_total_spin", "spin_exchange_su2_invariant", "spin_exchange_commutes_with_total_spin")]
 RULE = ("a case = a lattice built by one preset call between two dumps (every preset incl. all overloads, same-site and "
         "two-site variants, random dyadic and real parameters) or by random mixtures of presets and user terms; the "
         "term storage is compared exactly with the model, the symbolic Hamiltonian with the sum of the stored terms "
@@ -19,11 +22,14 @@ LEVEL_TEXT = ("Proof: the product of a term's factors as accumulated by IndexHam
               "from the source) denotes the ordered product of Jordan-Wigner operators in every CAR representation, the "
               "whole IndexHamiltonian denotes the sum over the stored terms, its construction never fails, the matrix "
               "filled from actRight is the matrix of that operator; every term a preset stores is valid (presets bypass "
-              "the validation of addTerm). Preset formulas themselves (operator sequences, labels, orbitals, spins, "
-              "coefficients extracted by the translator) are tied to the documented operators by exact differential "
-              "comparison of Jordan-Wigner matrices for all presets/overloads, incl. Hermiticity and SU(2) invariance.")
-LEVEL_NOTE = ("Trusted: Lean kernel, translator; the per-preset documentation formulas are checked by execution on generated "
-              "lattices (all shapes up to 6 modes), not by a symbolic theorem for arbitrary orbital counts.")
+              "the validation of addTerm). Every preset (model over the extracted factories/coefficients) adds exactly its documented operator for every number "
+              "of orbitals, the result is self-adjoint for real parameters, and the Kanamori and spin-exchange operators commute with S+ and S- "
+              "(theorems); additionally compared with the real presets by exact Jordan-Wigner matrices.")
+LEVEL_NOTE = ("Trusted: Lean kernel, translator (operator sequences, coefficients and guards of the preset factories are regenerated from "
+              "LatticePresets.cpp on every run). The documented operator of every preset, Hermiticity and the SU(2) invariance of the Kanamori "
+              "and spin-exchange presets are now THEOREMS about the modelled presets for arbitrary orbital counts in every CAR representation "
+              "(Spec/PresetSem.lean); the differential oracle compares the real presets with the hand-transcribed documentation formulas and "
+              "with the model bit for bit. addMagnetization adds twice the documented field (known finding F15).")
 TECHNIQUE = "Lean 4 proof (CAR-representation semantics of the term translation) + exact Jordan-Wigner differential oracle per preset"
 DESIGN_REF = "DESIGN.md section 6, C04"
 
